@@ -14,10 +14,11 @@ type Violation struct {
 }
 
 const (
-	findingPPT      = "F15" // bare assertions / args[0] / nil payload in PPT unpack
-	findingWedge    = "F16" // run blocked in runSignalReply on an abandoned reply channel
-	findingPPTAbort = "F41" // RESULT with unannounced ppt_scheme: send side closed, next send / Close panics
-	findingDupInv   = "F42" // INVOCATIONs repeating a live request id block run in handlerQueue <- msg
+	findingPPT       = "F15" // bare assertions / args[0] / nil payload in PPT unpack
+	findingWedge     = "F16" // run blocked in runSignalReply on an abandoned reply channel
+	findingPPTAbort  = "F41" // RESULT with unannounced ppt_scheme: send side closed, next send / Close panics
+	findingDupInv    = "F42" // INVOCATIONs repeating a live request id block run in handlerQueue <- msg
+	findingCloseRace = "F43" // an API call racing with Close() sends on the closed channel: panic
 )
 
 var replyReqIndex = map[int]int{33: 1, 35: 1, 65: 1, 67: 1, 17: 1, 50: 1, 8: 2}
@@ -162,8 +163,11 @@ func check(sc Scenario, res Result, prop string) []Violation {
 
 	if res.Panic != "" {
 		f := ""
-		if strings.Contains(res.Panic, "closed channel") && v.pptAbortShape() {
+		switch {
+		case strings.Contains(res.Panic, "closed channel") && v.pptAbortShape():
 			f = findingPPTAbort
+		case strings.Contains(res.Panic, "send on closed channel") && v.closeT >= 0:
+			f = findingCloseRace // a goroutine of the client was sending when Close() closed the channel
 		}
 		out = append(out, Violation{Clause: "C17.no-panic", Detail: "the client panicked: " + res.Panic, Finding: f})
 		return out
@@ -420,10 +424,13 @@ func check(sc Scenario, res Result, prop string) []Violation {
 			id := num(at(st.M, 1))
 			d, _ := at(st.M, 3).(map[string]any)
 			sp, ok := held[num(at(st.M, 2))]
+			if ok && (st.T == sp.from || st.T == sp.to) {
+				// same instant as the REGISTERED being returned / the Unregister: handled or answered
+				// with ERROR before its id is looked at — either; `last` keeps the certain value
+				may[id]++
+				continue
+			}
 			if !ok || st.T < sp.from || st.T > sp.to {
-				if ok && (st.T == sp.from || st.T == sp.to) {
-					may[id]++ // same instant as REGISTERED / Unregister: either
-				}
 				continue // no handler: answered with ERROR before the id is looked at
 			}
 			if _, ppt := d["ppt_scheme"]; ppt {
@@ -452,7 +459,8 @@ func check(sc Scenario, res Result, prop string) []Violation {
 		}
 	}
 	for id, n := range ran {
-		if n > may[id] {
+		// (with slow event / progress handlers the loop lags behind the script: not judged then)
+		if n > may[id] && sc.Cfg.EventDelay == 0 && sc.Cfg.ProgDelay == 0 {
 			add("C16.invocation-once", fmt.Sprintf("the handler ran %d times for invocation id %d; only %d INVOCATION messages with that id were new or continued a progressive one", n, id, may[id]))
 		}
 	}
